@@ -452,6 +452,19 @@ func (d *Device) handleOpenrgb(ctx context.Context, wg *sync.WaitGroup) {
 		actionToEvcode[action] = code
 	}
 
+	// an action that is not mapped, or whose key has no LED on this controller, lights nothing
+	setActionLed := func(action config.Action, color openrgb.Color) {
+		code, ok := actionToEvcode[action]
+		if !ok {
+			return
+		}
+		id, ok := indexMap[code]
+		if !ok {
+			return
+		}
+		ledArray[id] = color
+	}
+
 	white1 := openrgb.Color{Red: 27, Green: 27, Blue: 27}
 	white2 := openrgb.Color{Red: 100, Green: 100, Blue: 100}
 	white3 := openrgb.Color{Red: 255, Green: 255, Blue: 255}
@@ -505,71 +518,71 @@ root:
 			ledArray[nameToIndex[key]] = openrgb.Color{}
 		}
 
-		ledArray[indexMap[actionToEvcode[config.Panic]]] = openrgb.Color{Red: 0xff}
+		setActionLed(config.Panic, openrgb.Color{Red: 0xff})
 
-		ledArray[indexMap[actionToEvcode[config.OctaveUp]]] = white1
-		ledArray[indexMap[actionToEvcode[config.OctaveDown]]] = white1
+		setActionLed(config.OctaveUp, white1)
+		setActionLed(config.OctaveDown, white1)
 
 		if d.octave > 0 {
 			if d.octave == 1 {
-				ledArray[indexMap[actionToEvcode[config.OctaveUp]]] = white2
+				setActionLed(config.OctaveUp, white2)
 			} else {
-				ledArray[indexMap[actionToEvcode[config.OctaveUp]]] = white3
+				setActionLed(config.OctaveUp, white3)
 			}
 		}
 		if d.octave < 0 {
 			if d.octave == -1 {
-				ledArray[indexMap[actionToEvcode[config.OctaveDown]]] = white2
+				setActionLed(config.OctaveDown, white2)
 			} else {
-				ledArray[indexMap[actionToEvcode[config.OctaveDown]]] = white3
+				setActionLed(config.OctaveDown, white3)
 			}
 		}
 
-		ledArray[indexMap[actionToEvcode[config.SemitoneUp]]] = white1
-		ledArray[indexMap[actionToEvcode[config.SemitoneDown]]] = white1
+		setActionLed(config.SemitoneUp, white1)
+		setActionLed(config.SemitoneDown, white1)
 		if d.semitone > 0 {
 			if d.semitone == 1 {
-				ledArray[indexMap[actionToEvcode[config.SemitoneUp]]] = white2
+				setActionLed(config.SemitoneUp, white2)
 			} else {
-				ledArray[indexMap[actionToEvcode[config.SemitoneUp]]] = white3
+				setActionLed(config.SemitoneUp, white3)
 			}
 		}
 		if d.semitone < 0 {
 			if d.semitone == -1 {
-				ledArray[indexMap[actionToEvcode[config.SemitoneDown]]] = white2
+				setActionLed(config.SemitoneDown, white2)
 			} else {
-				ledArray[indexMap[actionToEvcode[config.SemitoneDown]]] = white3
+				setActionLed(config.SemitoneDown, white3)
 			}
 		}
 
-		ledArray[indexMap[actionToEvcode[config.MappingUp]]] = white3
-		ledArray[indexMap[actionToEvcode[config.MappingDown]]] = white3
+		setActionLed(config.MappingUp, white3)
+		setActionLed(config.MappingDown, white3)
 		if d.mapping == 0 {
-			ledArray[indexMap[actionToEvcode[config.MappingDown]]] = white1
+			setActionLed(config.MappingDown, white1)
 		}
 		if d.mapping == len(d.config.KeyMappings)-1 {
-			ledArray[indexMap[actionToEvcode[config.MappingUp]]] = white1
+			setActionLed(config.MappingUp, white1)
 		}
 
 		chanColor := channelColors[d.channel]
-		ledArray[indexMap[actionToEvcode[config.ChannelUp]]] = chanColor
-		ledArray[indexMap[actionToEvcode[config.ChannelDown]]] = chanColor
+		setActionLed(config.ChannelUp, chanColor)
+		setActionLed(config.ChannelDown, chanColor)
 		if d.channel == 0 {
-			ledArray[indexMap[actionToEvcode[config.ChannelDown]]] = openrgb.Color{
+			setActionLed(config.ChannelDown, openrgb.Color{
 				Red:   chanColor.Red / 3,
 				Green: chanColor.Green / 3,
 				Blue:  chanColor.Blue / 3,
-			}
+			})
 		}
 		if d.channel == 15 {
-			ledArray[indexMap[actionToEvcode[config.ChannelUp]]] = openrgb.Color{
+			setActionLed(config.ChannelUp, openrgb.Color{
 				Red:   chanColor.Red / 3,
 				Green: chanColor.Green / 3,
 				Blue:  chanColor.Blue / 3,
-			}
+			})
 		}
 
-		ledArray[indexMap[actionToEvcode[config.Multinote]]] = white1
+		setActionLed(config.Multinote, white1)
 
 		var hsvOfsset float64
 
